@@ -72,11 +72,21 @@ fn gen(rng: &mut Rng) -> (u64, u16, u8, u16, u8) {
     (F.min(u64::MAX as u128) as u64, T, Z, N, Al)
 }
 
+thread_local! {
+    /// the previous call on this thread (recorded in the replay file: a history-dependent answer needs it)
+    static PREV: std::cell::Cell<Option<(u64, u16, u8, u16, u8)>> = const { std::cell::Cell::new(None) };
+}
+
 pub fn check_one(ctx: &Ctx, F: u64, T: u16, Z: u8, N: u16, Al: u8) -> bool {
     let want = oracle(F, T, Z, Al);
     let got = guarded(|| Oti::new(F, T, Z, N, Al));
+    let prev = PREV.with(|p| p.replace(Some((F, T, Z, N, Al))));
     let tuple = format!("new(F={F},T={T},Z={Z},N={N},Al={Al})");
-    let case = J::obj(vec![("F", J::i(F)), ("T", J::i(T)), ("Z", J::i(Z)), ("N", J::i(N)), ("Al", J::i(Al))]);
+    let mut case = vec![("F", J::i(F)), ("T", J::i(T)), ("Z", J::i(Z)), ("N", J::i(N)), ("Al", J::i(Al))];
+    if let Some((pf, pt, pz, pn, pal)) = prev {
+        case.push(("previous_call_on_this_thread", J::obj(vec![("F", J::i(pf)), ("T", J::i(pt)), ("Z", J::i(pz)), ("N", J::i(pn)), ("Al", J::i(pal))])));
+    }
+    let case = J::obj(case);
     match (&got, want) {
         (Ok(_), false) => {
             ctx.violation(format!("C19 {tuple} accepted"), format!("{tuple} was accepted although it violates a documented limit (F<=942574504275, Al|T, ceil(ceil(F/T)/Z)<=56403)"), case);
@@ -106,6 +116,9 @@ pub fn run(ctx: &Ctx) -> i32 {
         let j = parse_json(&std::fs::read_to_string(p).expect("replay file")).expect("json");
         let c = j.get("case").unwrap();
         ctx.eval(1);
+        if let Some(p) = c.get("previous_call_on_this_thread") {
+            let _ = guarded(|| Oti::new(p.u("F"), p.u("T") as u16, p.u("Z") as u8, p.u("N") as u16, p.u("Al") as u8));
+        }
         check_one(ctx, c.u("F"), c.u("T") as u16, c.u("Z") as u8, c.u("N") as u16, c.u("Al") as u8);
         ctx.nontrivial(1);
         ctx.nontrivial(2);
@@ -116,6 +129,7 @@ pub fn run(ctx: &Ctx) -> i32 {
     let accepted = std::sync::atomic::AtomicU64::new(0);
     let refused = std::sync::atomic::AtomicU64::new(0);
     let big_q = std::sync::atomic::AtomicU64::new(0);
+    let hist_calls = std::sync::atomic::AtomicU64::new(0);
     // directed cases first (documented maxima, the historical narrowing inputs)
     for &(F, T, Z, N, Al) in &[
         (942574504275u64, 65535u16, 255u8, 1u16, 1u8),
@@ -138,12 +152,33 @@ pub fn run(ctx: &Ctx) -> i32 {
         let mut rng = Rng::derive(ctx.seed(), 19, ci as u64);
         let mut local = std::collections::HashSet::new();
         let (mut a, mut r, mut b) = (0u64, 0u64, 0u64);
+        let mut hist = 0u64;
         for _ in 0..chunk {
             if ctx.too_many_violations() {
                 break;
             }
             let (F, T, Z, N, Al) = gen(&mut rng);
             check_one(ctx, F, T, Z, N, Al);
+            // call histories: the constructor is a pure function of its arguments, so its answer must not
+            // depend on what was asked before. One tuple in eight is followed, on the same thread, by
+            // neighbours that differ from the previous call in exactly one field (each field in turn, both
+            // towards acceptance and towards refusal), and by the original tuple again
+            if rng.chance(1, 8) {
+                let (mut f, mut t, mut z, mut n, mut al) = (F, T, Z, N, Al);
+                for step in 0..rng.range(2, 7) {
+                    match (step + rng.below(5)) % 5 {
+                        0 => al = match rng.below(4) { 0 => 1, 1 => al.wrapping_add(1).max(1), 2 => rng.range(1, 255) as u8, _ => { let mut d = rng.range(1, 255.min(t as u64)) as u16; while t % d != 0 { d -= 1; } d as u8 } },
+                        1 => t = match rng.below(3) { 0 => t.wrapping_add(1).max(1), 1 => (t as u32 * rng.range(1, 3) as u32).min(65535) as u16, _ => rng.range(1, 65535) as u16 },
+                        2 => z = match rng.below(3) { 0 => z.wrapping_add(1).max(1), 1 => z.wrapping_sub(1).max(1), _ => rng.range(1, 255) as u8 },
+                        3 => f = match rng.below(4) { 0 => f.wrapping_add(1), 1 => f.wrapping_sub(1), 2 => (K_MAX * z as u128 * t as u128).min(u64::MAX as u128) as u64 + rng.below(2), _ => gen(&mut rng).0 },
+                        _ => n = rng.next() as u16,
+                    }
+                    check_one(ctx, f, t, z, n, al);
+                    hist += 1;
+                }
+                check_one(ctx, F, T, Z, N, Al);
+                hist += 1;
+            }
             if oracle(F, T, Z, Al) {
                 a += 1
             } else {
@@ -169,13 +204,15 @@ pub fn run(ctx: &Ctx) -> i32 {
         accepted.fetch_add(a, std::sync::atomic::Ordering::Relaxed);
         refused.fetch_add(r, std::sync::atomic::Ordering::Relaxed);
         big_q.fetch_add(b, std::sync::atomic::Ordering::Relaxed);
+        hist_calls.fetch_add(hist, std::sync::atomic::Ordering::Relaxed);
     });
     use std::sync::atomic::Ordering::Relaxed;
     ctx.floor("tuples_oracle_accepts", accepted.load(Relaxed), 1000);
     ctx.floor("tuples_oracle_refuses", refused.load(Relaxed), 1000);
     ctx.floor("tuples_with_F_over_T_at_least_2^32", big_q.load(Relaxed), 1000);
+    ctx.floor("calls_that_differ_from_the_previous_call_on_the_same_thread_in_one_field", hist_calls.load(Relaxed), 1000);
     ctx.finish(
-        "tuples (F,T,Z,N,Al) from boundary/narrowing-directed strata; ObjectTransmissionInformation::new under catch_unwind must return iff the documented limits hold (u128 oracle), accessors and serialize must echo the arguments. non-trivial = within +-2 of a limit or F/T >= 2^32; distinct by tuple hash",
+        "tuples (F,T,Z,N,Al) from boundary/narrowing-directed strata; ObjectTransmissionInformation::new under catch_unwind must return iff the documented limits hold (u128 oracle), accessors and serialize must echo the arguments; one tuple in eight is followed on the same thread by 2-6 calls that differ from the previous call in exactly one field and by the tuple itself again (the answer must not depend on the call history). non-trivial = within +-2 of a limit or F/T >= 2^32; distinct by tuple hash",
         &["domain T>=1, Z>=1, Al>=1 (positive parameters, as the property states); N is unconstrained by the constructor's documentation"],
         vec![],
     )
